@@ -111,6 +111,9 @@ class BSplineSignal:
             BSplineSignal.register(peers, target.derivative.symbol, stage, signal_der)
 
 class FixedGrid(Grid):
+    # Grids without a closed-form shortest/longest interval bound each interval by min/max
+    bound_every_interval = False
+
     def __init__(self, localize_t0=False, localize_T=False, **kwargs):
         Grid.__init__(self, **kwargs)
         self.localize_t0 = localize_t0
@@ -125,6 +128,8 @@ class FixedGrid(Grid):
                     yield r
         else:
             Tk = T*(self.normalized(N)[k+1]-self.normalized(N)[k])
+            if self.bound_every_interval and not (self.min==0 and self.max==inf):
+                yield (self.min <= (Tk <= self.max), {})
         if self.localize_t0 and k>=0:
             yield (t0_local[k]+Tk==t0_local[k+1],{})
 
@@ -220,6 +225,8 @@ class UniformGrid(FixedGrid):
 
 
 class FunctionGrid(FixedGrid):
+    bound_every_interval = True
+
     def __init__(self, normalized_fun, **kwargs):
         """
         Inputs:
@@ -236,6 +243,8 @@ class FunctionGrid(FixedGrid):
     def normalized(self, N):
         return self.normalized_fun(N)
 class DensityGrid(FixedGrid):
+    bound_every_interval = True
+
     def __init__(self, density, integrator='cvodes',integrator_options=None,**kwargs):
         """
         Expression in one symbolic variable (dimensionless time) that describes the density of the grid
